@@ -99,7 +99,7 @@ class State:
         self.heap: Dict[int, HeapObj] = {}
         self.pc: List[Term] = []
         self.events: List[Event] = []
-        self.pending: List[Tuple[str, Term, str]] = []
+        self.pending: List[Tuple[str, Term, str, int]] = []
         self.counters: Dict[str, int] = {}
         self.minlen: Dict[Term, int] = {}  # guaranteed minimum length (in bytes) of a bytes source
         self.notes: List[str] = []
@@ -129,7 +129,7 @@ class State:
         return ("obj", oid)
 
     def may_raise(self, exc: str, cond: Term, where: str) -> None:
-        self.pending.append((exc, cond, where))
+        self.pending.append((exc, cond, where, len(self.events)))
 
 
 @dataclass
@@ -177,6 +177,8 @@ class Interp:
         self.calls_unresolved: List[Tuple[str, str]] = []
         self.functions_visited: Dict[str, int] = {}
         self.paths = 0
+        self.steps = 0
+        self.max_steps = 300000
         from . import lib
 
         self.lib = lib
@@ -250,12 +252,13 @@ class Interp:
         pend = st.pending
         st.pending = []
         cur = st
-        for exc, cond, where in pend:
+        for exc, cond, where, nev in pend:
             if is_c(cond) and cond[1] is False:
                 continue
             if neg(cond) in cur.pc:
                 continue  # already excluded on this path (same guard raised earlier)
             r = cur.fork()
+            del r.events[nev:]  # the operation raised before the later events happened
             r.pc.append(cond)
             out.append((r, ("raise", ("exc", exc, (), where, None))))
             if is_c(cond) and cond[1] is True:
@@ -265,6 +268,9 @@ class Interp:
         return out
 
     def exec_stmt(self, node: ast.stmt, st: State, ctx: Ctx) -> List[Tuple[State, Any]]:
+        self.steps += 1
+        if self.steps > self.max_steps:
+            raise AnalysisError(f"analysis budget exceeded ({self.max_steps} abstract statements) at {ctx.loc(node)}")
         m = getattr(self, "st_" + type(node).__name__, None)
         if m is None:
             raise AnalysisError(f"unsupported statement {type(node).__name__} at {ctx.loc(node)}")
@@ -637,7 +643,7 @@ class Interp:
         if isinstance(inner, ast.Await):
             inner = inner.value
             awaited = True
-        if isinstance(inner, ast.IfExp):
+        if isinstance(inner, ast.IfExp) and (ctx.depth <= 1 or any(isinstance(n, ast.Await) for n in ast.walk(inner))):
             out: List[Tuple[State, Term, Any]] = []
             for s, cond, sig in self.cond_forking(inner.test, st, ctx):
                 if sig is not None:
@@ -651,6 +657,27 @@ class Interp:
                     sf.pc.append(neg(cond))
                     out.extend(self.eval_forking(inner.body, s, ctx))
                     out.extend(self.eval_forking(inner.orelse, sf, ctx))
+            return out
+        if isinstance(inner, ast.BoolOp) and len(inner.values) == 2 and not awaited:
+            # value-producing `a or b` / `a and b`: fork on the truth of a
+            out = []
+            is_or = isinstance(inner.op, ast.Or)
+            for s, a, sig in self.eval_forking(inner.values[0], st, ctx):
+                if sig is not None:
+                    out.append((s, a, sig))
+                    continue
+                ta = self.truth(a, s)
+                if is_c(ta):
+                    if ta[1] == is_or:
+                        out.append((s, a, None))
+                    else:
+                        out.extend(self.eval_forking(inner.values[1], s, ctx))
+                    continue
+                s2 = s.fork()
+                s.pc.append(ta if is_or else neg(ta))
+                out.append((s, a, None))
+                s2.pc.append(neg(ta) if is_or else ta)
+                out.extend(self.eval_forking(inner.values[1], s2, ctx))
             return out
         if isinstance(inner, ast.Call) and _is_plain_ref(inner.func):
             fv = self.eval(inner.func, st, ctx)
@@ -965,6 +992,15 @@ class Interp:
             return ("extmeth", base, attr)
         if t == "exc":
             return ("extmeth", base, attr)
+        if t == "lookup" and all(v[0] == "enum" for _, v in base[1]):
+            try:
+                return ("lookup", tuple((k, self.getattr(v, attr, st, ctx, node)) for k, v in base[1]), base[2])
+            except AnalysisError:
+                pass
+        if t == "ite":
+            a = self.getattr(base[2], attr, st, ctx, node)
+            b = self.getattr(base[3], attr, st, ctx, node)
+            return ite(base[1], a, b)
         return ("extmeth", base, attr)
 
     def type_of_annotation(self, ann: ast.AST, mod: Module) -> Any:
@@ -1070,11 +1106,11 @@ class Interp:
         p1 = len(st.pending)
         b = self.eval(node.orelse, st, ctx)
         for i in range(p0, p1):
-            e, cnd, w = st.pending[i]
-            st.pending[i] = (e, conj([cond, cnd]), w)
+            e, cnd, w, nev = st.pending[i]
+            st.pending[i] = (e, conj([cond, cnd]), w, nev)
         for i in range(p1, len(st.pending)):
-            e, cnd, w = st.pending[i]
-            st.pending[i] = (e, conj([neg(cond), cnd]), w)
+            e, cnd, w, nev = st.pending[i]
+            st.pending[i] = (e, conj([neg(cond), cnd]), w, nev)
         return ite(cond, a, b)
 
     def ev_BoolOp(self, node: ast.BoolOp, st: State, ctx: Ctx) -> Term:
@@ -1087,8 +1123,8 @@ class Interp:
             # short circuit: later operands only evaluated under the guard
             if guard:
                 for j in range(p0, len(st.pending)):
-                    e, cnd, w = st.pending[j]
-                    st.pending[j] = (e, conj(guard + [cnd]), w)
+                    e, cnd, w, nev = st.pending[j]
+                    st.pending[j] = (e, conj(guard + [cnd]), w, nev)
             tx = self.truth(x, st)
             if is_c(tx):
                 if is_and and not tx[1]:
